@@ -13,7 +13,7 @@ from vlib.refs import lse_ld, mis_logw
 PID = "C04"
 LEVEL = "exploration"
 RULE = (
-    "Hypothesis draws histories through the public StateManager API: T in 1..8 iterations, unequal batch sizes n_t in 1..40, "
+    "Hypothesis draws histories through the public StateManager API: T in 1..8 (one case in ten: 60..150) iterations, unequal batch sizes n_t in 1..40, "
     "beta_t in [0,1] in any order with repeats and end points, logz_t in [-1e3,1e3], log-likelihoods from families "
     "{O(1) normal, all-equal, one-dominant, wide 10^U(0,6) spread, tempered-chi2, explicit float lists}, target beta in [0,1] incl. 0 and 1. "
     "Non-trivial = T>=2, not all n_t equal, >=2 distinct beta_t. distinct = case hash."
@@ -28,13 +28,14 @@ EPS = float(np.finfo(np.float64).eps)
 
 @st.composite
 def cases(draw):
-    T = draw(st.integers(1, 8))
+    long_hist = draw(st.integers(0, 9)) == 0  # occasionally a long history (many iterations, small unequal batches)
+    T = draw(st.integers(60, 150)) if long_hist else draw(st.integers(1, 8))
     betas = [draw(st.one_of(st.floats(0.0, 1.0), st.sampled_from([0.0, 1.0, 0.5, 1e-8]))) for _ in range(T)]
     if draw(st.booleans()) and T > 1:
         betas[draw(st.integers(0, T - 1))] = betas[0]  # repeats
-    sizes = [draw(st.integers(1, 40)) for _ in range(T)]
+    sizes = [draw(st.integers(1, 6 if long_hist else 40)) for _ in range(T)]
     logzs = [draw(st.one_of(st.floats(-1e3, 1e3), st.floats(-5, 5), st.just(0.0))) for _ in range(T)]
-    fam = draw(st.sampled_from(["normal", "equal", "dominant", "wide", "chi2", "explicit"]))
+    fam = draw(st.sampled_from(["normal", "equal", "dominant", "wide", "chi2"] + ([] if long_hist else ["explicit"])))
     spec = {"T": T, "betas": betas, "sizes": sizes, "logzs": logzs, "family": fam,
             "seed": draw(st.integers(0, 2**31 - 1)),
             "scale_exp": draw(st.floats(0.0, 6.0)),
